@@ -45,6 +45,8 @@ def cases(ctx):
             k += 1
     for i in range(ctx.pick(300, 30000)):
         yield "uniform", {"seed": ctx.subseed("u", i)}
+    for i in range(ctx.pick(200, 20000)):
+        yield "regenerate", {"seed": ctx.subseed("rg", i), "gen": ["lhs", "halton", "uniform", "random"][i % 4]}
     for i in range(ctx.pick(400, 36000)):
         yield "random", {"seed": ctx.subseed("r", i), "maxN": ctx.pick(200, 2000), "hostile": i % 2 == 0}
 
@@ -136,6 +138,61 @@ def run_case(ctx, name, params):
             ctx.nontrivial(("halton", n, N, tuple(map(tuple, bxs))))
         ctx.count("cases")
         ctx.sample({"generator": "halton", "n": n, "N": N, "bounds": bxs[:2], "first": [list(map(float, v)) for v in vecs[:2]]}, "halton")
+    elif name == "regenerate":
+        # one generator object, used again after the sample count and the declared bounds were changed in place
+        g = params["gen"]
+        n = r.randint(1, 5)
+        bxs = gen.boxes(r, n, fam)
+        Pm = params_for(bxs)
+        cls_ = {"lhs": operators.LHSGenerator, "halton": operators.HaltonGenerator, "uniform": operators.UniformGenerator,
+                "random": operators.RandomGenerator}[g]
+        o = cls_(Pm)
+        vrng.install(vrng.SeededRandom(params["seed"]))
+        vrng.install_numpy(params["seed"] % (2 ** 31))
+        try:
+            for round_ in range(3):
+                N = r.randint(2, 4) if g == "uniform" else r.randint(1, 40)
+                o.init(N)
+                if round_:
+                    for q in Pm:
+                        lb, ub = q["bounds"]
+                        w = ub - lb
+                        q["bounds"][0], q["bounds"][1] = lb + r.uniform(-0.5, 0.4) * w, ub + r.uniform(-0.4, 0.5) * w
+                cur = [tuple(q["bounds"]) for q in Pm]
+                wit = lambda: {"generator": g, "round": round_, "N": N, "bounds_now": cur}
+                vecs = o.generate()
+                ctx.count("regenerations")
+                if len(vecs) != (N ** n if g == "uniform" else N):
+                    ctx.violation("%s/count/regenerated" % g, "returned %d designs in round %d" % (len(vecs), round_), wit())
+                    return
+                for j, (lb, ub) in enumerate(cur):
+                    col = sorted(float(v[j]) for v in vecs)
+                    sl = slack(lb, ub)
+                    if g == "lhs":
+                        wdt = (ub - lb) / N
+                        ok = all(lb + i * wdt - sl <= x <= lb + (i + 1) * wdt + sl for i, x in enumerate(col))
+                    elif g == "halton":
+                        pr = oracles.primes(n)
+                        ok = all(abs(float(vecs[i - 1][j]) - (lb + float(oracles.radical_inverse(i, pr[j])) * (ub - lb)))
+                                 <= 1e-12 * abs(ub - lb) + sl for i in range(1, min(N, 12) + 1))
+                    elif g == "uniform":
+                        step = (ub - lb) / (N - 1)
+                        ok = all(abs(x - (lb + round((x - lb) / step) * step)) <= 1e-12 * abs(ub - lb) + sl and lb - sl <= x <= ub + sl for x in col) \
+                            and abs(col[0] - lb) <= sl + 1e-12 * abs(ub - lb) and abs(col[-1] - ub) <= sl + 1e-12 * abs(ub - lb)
+                    else:
+                        ok = all(lb - 1e-12 - sl <= x <= ub + 1e-12 + sl for x in col)
+                    if not ok:
+                        ctx.violation("%s/structure/regenerated" % g, "design generated by a re-used generator object in round %d does not "
+                                      "have its defining structure over the bounds declared now (parameter %d)" % (round_, j),
+                                      dict(wit(), column=col[:8]))
+                        return
+        except Exception as e:
+            ctx.violation("%s/exception/regenerated" % g, "%s generator raised %r when used again" % (g, e), {"bounds": bxs})
+            return
+        finally:
+            vrng.uninstall_numpy()
+        ctx.nontrivial(("rg", g, params["seed"]))
+        ctx.count("cases")
     elif name == "halton_power":
         n, N = params["n"], params["N"]
         bxs = gen.boxes(r, n, fam)
